@@ -45,7 +45,7 @@ PROPS = {
             "rule": PIPE_RULE},
     "C12": {"lean": ["C12"], "expected": ["K12", "Globals"], "streams": [{"name": "pipe", "gen": "pipe", "args": {"focus": "tcp"}}],
             "rule": PIPE_RULE},
-    "C13": {"lean": ["C13"], "expected": ["Globals"], "streams": [{"name": "pipe", "gen": "pipe", "args": {"focus": "requests"}}, {"name": "cfg", "gen": "cfg", "args": {"focus": "keep"}}],
+    "C13": {"lean": ["C13"], "expected": ["Globals"], "streams": [{"name": "pipe", "gen": "pipe", "args": {"focus": "requests"}}, {"name": "cfg", "gen": "cfg", "args": {"focus": "keep"}}, {"name": "cfg2", "gen": "cfg", "args": {"focus": "hosts"}}],
             "rule": PIPE_RULE},
     "C17": {"lean": ["C17"], "expected": ["Tables", "Wiring", "Globals"], "streams": [{"name": "pipe", "gen": "pipe", "args": {"focus": "twins"}}],
             "rule": PIPE_RULE},
